@@ -26,6 +26,7 @@ site: http://bugseng.com/products/ppl/ . */
 
 #include "C_Integer.hh"
 #include <cerrno>
+#include <cmath>
 #include <cstdlib>
 #include <climits>
 #include <string>
@@ -564,7 +565,8 @@ assign_int_float(To& to, const From from, Rounding_Dir dir) {
     to = from;
     return V_LGE;
   }
-  From i_from = rint(from);
+  // Use the overload of rint() for the source type (long double included).
+  From i_from = std::rint(from);
   to = i_from;
   if (from == i_from) {
     return V_EQ;
